@@ -51,3 +51,14 @@ Definition run_mb_case (elems : list mbE) (blocks : list (list Z)) (mats : list 
   pack [ [mb_energy 0%Z Z.add Z.mul edef ek vl elems bms];
          concat (mb_states edef sk elems bms base);
          concat (mb_hessians edef hk elems bms zeros) ].
+
+(* ---------- round 4: element batching.  Evaluating a per-element kernel "a batch of elements at a time": every batch is a list of
+   element ids, the kernel is mapped over the gathered rows, the batch results are concatenated and truncated to the number of
+   elements (the harness's chunked reference computation has this shape; so would a batched element map in FunctionSpace). *)
+Definition batched_map {E H : Type} (edef : E) (f : E -> H) (elems : list E) (batches : list (list nat)) : list H :=
+  firstn (length elems) (concat (map (fun ids => map f (gather edef elems ids)) batches)).
+
+(* fixed-size windows [b*c, b*c + c) whose start is clamped so that the window fits (lax.dynamic_slice semantics) *)
+Definition clamped_windows (n c : nat) : list (list nat) :=
+  map (fun b => seq (Nat.min (b * c) (n - c)) c) (seq 0 ((n + c - 1) / c)).
+
